@@ -113,19 +113,43 @@ fn flow<C: Ciphersuite, L: Lab<C>>(lab: &mut L, p: &Params) {
             lab.ref_hash(4, &input, C::H4(&input).as_ref(), &format!("H4 on {len} bytes = independent RFC 9591 transcription"));
             lab.ref_hash(5, &input, C::H5(&input).as_ref(), &format!("H5 on {len} bytes = independent RFC 9591 transcription"));
         }
+        // the suite's challenge computation (possibly overridden per suite) on messages of many lengths:
+        // challenge(R, PK, m) = H2(enc(R) || enc(PK) || m), H2 from the independent transcription
+        for len in [0usize, 1, 32, 33, 100, 1000, 4095, 4096, 4097, 6000, 10000] {
+            let m: Vec<u8> = (0..len).map(|i| (i as u8).wrapping_mul(7).wrapping_add(len as u8)).collect();
+            let r = g::<C>();
+            if let (Ok(c), Some(rb), Some(pb)) = (<C as Ciphersuite>::challenge(&r, &vk, &m), spec::ser_e::<C>(&r), spec::ser_e::<C>(&pk)) {
+                let mut pre = rb;
+                pre.extend_from_slice(&pb);
+                pre.extend_from_slice(&m);
+                lab.ref_hash(2, &pre, &ser_s::<C>(&c.to_scalar()), &format!("challenge on a {len}-byte message = H2(enc(R) || enc(PK) || msg) (independent RFC 9591 transcription)"));
+            }
+        }
         lab.leave();
     }
     lab.enter("round1 vs RFC 4.1");
     // commit draws 32 bytes for the hiding nonce then 32 for the binding nonce, per signer in order
     let mut spec_nonces = vec![];
+    // the bytes the source handed out during the commits, as one stream: how they are requested (two
+    // requests of 32, one of 64, ...) is not prescribed; each commit uses the next 32 bytes for the
+    // hiding nonce and the 32 after them for the binding nonce
+    let mut drawn: Vec<u8> = vec![];
+    {
+        let n = lab.rng_requests().len();
+        for k in draws_before..n {
+            if let Some(b) = lab.draw_bytes(k) {
+                drawn.extend(b);
+            }
+        }
+    }
     for (j, id) in sess.signers.iter().enumerate() {
         let share = keys.0[id].signing_share().to_scalar();
-        let (Some(hb), Some(bb)) = (lab.draw_bytes(draws_before + 2 * j), lab.draw_bytes(draws_before + 2 * j + 1)) else {
-            lab.check(false, "two random requests per commit");
+        if drawn.len() < 64 * (j + 1) {
+            lab.check(false, "64 random bytes per commit");
             lab.leave();
             return;
-        };
-        lab.check(hb.len() == 32 && bb.len() == 32, "each nonce consumes 32 random bytes");
+        }
+        let (hb, bb) = (drawn[64 * j..64 * j + 32].to_vec(), drawn[64 * j + 32..64 * j + 64].to_vec());
         let (hn, bn) = (spec::nonce_generate::<C>(&hb, share), spec::nonce_generate::<C>(&bb, share));
         let nn = &sess.nonces[id];
         lab.eq_s(nn.hiding().to_scalar(), hn, "hiding nonce = H3(random_bytes || SerializeScalar(share))");
@@ -203,7 +227,7 @@ fn flow<C: Ciphersuite, L: Lab<C>>(lab: &mut L, p: &Params) {
     let r_real = gc.to_element();
     lab.eq_e(r_real, r_spec, "group commitment = sum(hiding_i + binding_factor_i * binding_i)");
     let c_spec = spec::compute_challenge::<C>(r_spec, pk, &msg);
-    let c_real = fc::challenge::<C>(&r_real, &vk, &msg);
+    let c_real = <C as Ciphersuite>::challenge(&r_real, &vk, &msg);
     let (Some(c_spec), Ok(c_real)) = (c_spec, c_real) else {
         lab.check(false, "challenge computes");
         lab.leave();
